@@ -26,6 +26,14 @@ ASSUMPTIONS = [
 ]
 
 W_CAP = 8192
+# worst observed ratios to the threshold (diagnostics for tolerance margins; read by nobody else)
+WORST = {}
+
+
+def _note(key, kind, ratio, case):
+    k = "%s:%s" % (key, kind)
+    if ratio > WORST.get(k, (0.0, None))[0]:
+        WORST[k] = (ratio, case)
 
 
 def _filters_in_domain(bank, rate):
@@ -95,6 +103,7 @@ def check_agree(case):
     # (1) the two domains agree
     d = np.abs(np.fft.ifft(X) - x)
     k = int(np.argmax(d))
+    _note("agree", spec["alias"], float(d[k]) / thr, case)
     require(d[k] <= 2 * thr, "filter {} width {} (base {}): |ifft(H) - h| = {:.3g} = {:.3g} x threshold at sample {} (supports {!r}, supports_hz {!r})",
             i, W, base, float(d[k]), float(d[k]) / thr, k, (left, right), (lo, hi))
 
@@ -107,6 +116,7 @@ def check_agree(case):
     if outside_t.any():
         a = np.abs(x) * outside_t
         k = int(np.argmax(a))
+        _note("outside_t", spec["alias"], float(a[k]) / thr, case)
         require(a[k] < 2 * thr, "filter {} width {}: |h[{}]| = {:.3g} = {:.3g} x threshold outside supports {!r}",
                 i, W, k, float(a[k]), float(a[k]) / thr, (left, right))
 
@@ -120,6 +130,7 @@ def check_agree(case):
     if outside_f.any():
         a = np.abs(X) * outside_f
         k = int(np.argmax(a))
+        _note("outside_f", spec["alias"], float(a[k]) / thr, case)
         require(a[k] < 2.5 * thr, "filter {} width {}: |H[{}]| = {:.3g} = {:.3g} x threshold at {:.6g} Hz, outside supports_hz {!r}",
                 i, W, k, float(a[k]), float(a[k]) / thr, float(f[k]), (lo, hi))
 
@@ -158,5 +169,5 @@ def clauses(tier):
     return [
         Clause("agree", check_agree,
                "one (bank, filter with supports_hz span <= rate, width in {base, base+1, [base, 4 base]}) per case: |ifft(H) - h| <= 2 thr, dtype real iff is_real, |h| < 2 thr outside supports (mod width), |H| < 2.5 thr outside supports_hz (mod rate, mirrored if real), supports straddle 0 / start at 0. Non-trivial = temporal support >= 5 samples and width != base",
-               _cases, quick=600, thorough=20000),
+               _cases, quick=3000, thorough=60000),
     ]
